@@ -5,6 +5,7 @@
   function `cf` (Go's size classes are only used by the driver).
 -/
 import XMT.ChunkSeq
+import XMT.ChunkReadFrom
 namespace XMT.Props.C11
 open XMT XMT.Chunk XMT.Chunk.Chunk
 
@@ -151,6 +152,22 @@ theorem pos_in_bounds (c : Chunk) (p : Int) (b : Bytes) (hb : 0 < b.length) (h :
     (c' : Chunk) (hok : writePos c p b = (c', none)) : 0 ≤ p ∧ p.toNat + b.length ≤ c.len :=
   let ⟨_, _, _, _, h5, _⟩ := writePos_spec c p b hb h c' none hok
   ⟨(h5 rfl).1, (h5 rfl).2.1⟩
+
+/-- **`ReadFrom` under a limit reads exactly up to the limit** (this is what `Packet.readBody`
+relies on, C01): for every limit `0 < L ≤ MaxSlice`, every chunk at cursor 0, every stream and every
+way it is split into non-empty short reads, with `k = min (room under the limit) (bytes available)`
+exactly `k` bytes are appended, `k` is the count reported, the stream is advanced by exactly `k`
+bytes and the chunk holds at most `L` bytes. -/
+theorem readFrom_reads_up_to_limit (L : Int) (hL : 0 < L) (hLm : L ≤ Facts.maxSlice) (c : Chunk)
+    (s : Codec.Stream) (h : c.Inv) (hl : c.limit = L) (hr : c.rpos = 0) (hne : Codec.NoEmpty s) :
+    ∃ c' s', c.readFrom cf s = (c', min (L.toNat - c.len) s.flatten.length, s') ∧ c'.Inv ∧
+      c'.unread = c.unread ++ s.flatten.take (min (L.toNat - c.len) s.flatten.length) ∧
+      s'.flatten = s.flatten.drop (min (L.toNat - c.len) s.flatten.length) ∧ (c'.len : Int) ≤ L := by
+  obtain ⟨c', s', e, i, l, _, u, _, f, _⟩ := readFromLoop_spec cf L hL hLm
+    (s.flatten.length + s.length + 1) c s 0 h hl hr hne (by omega)
+  refine ⟨c', s', ?_, i, u, f, ?_⟩
+  · unfold Chunk.readFrom; rw [e]; simp
+  · have := i.lim (by rw [l]; exact hL); rw [l] at this; exact this
 
 /-! Non-vacuity: the defect the repaired `grow` had (limit 10: w5 w5 r5 w100 held 15 bytes) is a
 reachable op sequence; the model now keeps it within the limit and accepts exactly 5 bytes. -/
